@@ -255,6 +255,14 @@ pub fn run(cli: Cli) -> ! {
             specs.push(Spec { proxy, limiter: true, stall: "connected-silent".into(), hostile: 1, login: true, churn: 0 });
         }
     }
+    // more stalled logins than the machine has cores (whatever a login holds while it waits for its client - a
+    // worker, a permit, a lock - there are more waiting clients than that), then a well-behaved login
+    let many = 2 * std::thread::available_parallelism().map(|n| n.get()).unwrap_or(16) + 3;
+    for stall in ["after-login-start", "after-encryption-request", "in-configuration-never-echoing"] {
+        for proxy in if thorough { vec![false, true] } else { vec![false] } {
+            specs.push(Spec { proxy, limiter: false, stall: stall.into(), hostile: many, login: true, churn: 0 });
+        }
+    }
     // a crowd: hundreds (thorough: thousands) of connections held open at a cheap stall point; both ends of
     // every connection are file descriptors of this process, several schedules run side by side
     let fd_limit = raise_fd_limit();
